@@ -239,6 +239,13 @@ def append_global(section, op, rt, rid, ops, idret=None):
     return s
 
 
+# C06: the version set LAST on the builder is the module's version (every call writes it); nothing else changes
+C["set_version"] = (None, """requires old(self).wf(),
+    ensures final(self).wf(), final(self).next_id == old(self).next_id, final(self).selected_function == old(self).selected_function,
+        final(self).selected_block == old(self).selected_block,
+        final(self).module.header is Some && (final(self).module.header->0).version == dr::version::version_word(major, minor),
+        old(self).module.header matches Some(h) ==> ((final(self).module.header->0).bound == h.bound && (final(self).module.header->0).magic_number == h.magic_number),
+        dr::module_ext((dr::ModuleV { header: old(self).view().module.header, ..final(self).view().module }), old(self).view().module),""")
 C["capability"] = (None, append_global("capabilities", "spirv::Op::Capability", "None", "None", "seq![dr::Operand::Capability(capability)]"))
 C["decoration_group"] = ("r", append_global("annotations", "spirv::Op::DecorationGroup", "None", "Some(r)", "Seq::empty()", idret=True))
 C["type_forward_pointer"] = (None, append_global("types_global_values", "spirv::Op::TypeForwardPointer", "None", "None",
@@ -299,7 +306,7 @@ C["type_pointer"] = ("r", TYPE3 % {"OP": "spirv::Op::TypePointer",
 DEFAULT = """requires old(self).wf(), old(self).next_id < u32::MAX - 8,
     ensures final(self).wf(), final(self).next_id >= old(self).next_id,"""
 
-SKIP = {"find_return_block_indices", "select_function_by_name", "version", "module_ref", "module_mut", "set_version",
+SKIP = {"find_return_block_indices", "select_function_by_name", "version", "module_ref", "module_mut",
         "extension", "ext_inst_import", "entry_point", "execution_mode", "execution_mode_id", "ext_inst", "string", "type_opaque"}
 
 
